@@ -143,11 +143,16 @@ class WithShim(Native):
 
 
 def _first_repo_frame(text):
-    """first stack frame that lies in the repository or the harness (for stable signatures)"""
+    """first stack frame that lies in the repository (for stable signatures): valgrind / TSan / ASan print
+    `paseto_v3_aws_lc::lc::Signature::from_bytes (mod.rs:210)`, Miri prints `--> /repo/paseto-core/src/x.rs:12`"""
     import re
     for line in text.splitlines():
-        m = re.search(r"((?:paseto[-_][\w-]+|pvmon|harness)[^\s:()]*(?:/src/[^\s:()]+)?):(\d+)", line)
-        if m and ("at " in line or "by " in line or "#" in line or "-->" in line):
+        # a frame whose *function* is in the repository (not a generic parameter of some std frame)
+        m = re.search(r"(?:0x[0-9A-Fa-f]+:? (?:in )?|#\d+ +(?:0x[0-9a-f]+ in )?)<?(paseto_[a-z0-9_]+(?:::[A-Za-z0-9_]+)+)", line)
+        if m:
+            return re.sub(r"::h[0-9a-f]{16}$", "", m.group(1))[:120]
+        m = re.search(r"/repo/(paseto-[\w-]+/src/[^\s:()]+):(\d+)", line)
+        if m:
             return f"{m.group(1)}:{m.group(2)}"
     return "unknown-frame"
 
@@ -192,9 +197,10 @@ class Valgrind(Native):
     thorough_only = True
     force_tier = "quick"
 
-    def __init__(self, name, monitor, args, shards=16, timeout=3600, note="", prop="C04"):
-        super().__init__(name, monitor, shards=shards, args=args, timeout=timeout, thorough_only=True, note=note)
+    def __init__(self, name, monitor, args, shards=16, timeout=3600, note="", prop="C04", quick=False, workload_only=False):
+        super().__init__(name, monitor, shards=shards, args=args, timeout=timeout, thorough_only=not quick, note=note)
         self.prop = prop
+        self.workload_only = workload_only
 
     def base_cmd(self, ctx):
         return ["valgrind", "--error-exitcode=9", "--leak-check=full", "--errors-for-leak-kinds=definite,indirect",
@@ -369,11 +375,11 @@ def c04(ctx):
                       note="the same workload in the plain release profile"),
         Miri("miri-parsers", "c04", ["--backend", "v4,v2", "--scale", "0.004"], shards=16, prop="C04",
              note="hostile parser workload on the Ed25519 RustCrypto backends + paseto-core under Miri (base64 unsafe, zerocopy prefix parsing)"),
-        Valgrind("memcheck-ffi", "c04", ["--backend", "v3lc,v4na", "--scale", "0.25"], prop="C04",
+        Valgrind("memcheck-ffi", "c04", ["--backend", "v3lc,v4na", "--scale", "0.1" if not ctx.thorough else "1.0"], prop="C04", quick=True,
                  note="hostile workload on the aws-lc and libsodium backends under memcheck with leak checking (LcPtr/DetachableLcPtr ownership, set_len after BN_bn2bin)"),
-        Valgrind("memcheck-keys", "c08", ["--backend", "v3lc,v4na", "--scale", "0.15"], prop="C04",
+        Valgrind("memcheck-keys", "c08", ["--backend", "v3lc,v4na", "--scale", "0.5"], prop="C04", workload_only=True,
                  note="key parse / clone / drop / sign / verify storms on the FFI backends under memcheck"),
-        Valgrind("memcheck-tokens", "c02", ["--backend", "v3lc"], prop="C04",
+        Valgrind("memcheck-tokens", "c02", ["--backend", "v3lc"], prop="C04", quick=True, workload_only=True,
                  note="every corrupted signature through lc::Signature::from_bytes and ECDSA_verify under memcheck"),
         Fuzz("libfuzzer-asan", "parsers", seconds=300, note="coverage-guided libFuzzer + AddressSanitizer over all backends x all FromStr instantiations, same oracle"),
     ]
@@ -464,7 +470,7 @@ def c17(ctx):
         Tsan("tsan", "c17", ["--part", "concurrent"], note="Part B: the concurrent workload under ThreadSanitizer with instrumented aws-lc and libsodium"),
         Miri("miri-threads", "c17", ["--part", "concurrent", "--backend", "v4,v2", "--scale", "0.01"], shards=1, prop="C17",
              note="2..16-thread miniature on the Ed25519 RustCrypto backends under Miri's data-race detector"),
-        Valgrind("memcheck-histories", "c17", ["--part", "histories", "--backend", "v3lc,v4na", "--scale", "0.15"], prop="C17",
+        Valgrind("memcheck-histories", "c17", ["--part", "histories", "--backend", "v3lc,v4na", "--scale", "0.5"], prop="C17",
                  note="failure histories on the FFI backends under memcheck (ownership of aws-lc objects on error paths)"),
     ]
 
